@@ -16,27 +16,39 @@ open Verif.Model.Sse Verif.Model.HttpDecide
 variable {P : Type}
 
 /-- SSE grammar.  For EVERY list of events and EVERY conformant choice of encoding — event
-field present or absent, a space after the colon or not (per field line), comment / `id:` /
-`retry:` lines before any field line, CRLF or LF per line (`eols`), and the stream ending with
-a blank line, at end of file after the last terminator, or inside the last line (`tail`) — the
-parser hands over exactly the events, in order: the event type (default "message") and the
-data lines joined by LF. -/
+field present or absent and of any type, a space after the colon or not (per field line),
+comment / `id:` / `retry:` lines before any field line and before the blank line, any number
+of data lines INCLUDING NONE (keep-alive events, comment-only events, extra blank lines), CRLF
+or LF per line (`eols`), and the stream ending with a blank line, at end of file after the last
+terminator, or inside the last line (`tail`) — the parser hands over exactly the events that
+have data, in order: the event type (default "message" — a data-less event resets it, it never
+leaks into the next event) and the data lines joined by LF. -/
 theorem c11_parse_render (evs : List Event) (eols : List Bool) (tail : Tail)
     (h : ∀ e ∈ evs, Conformant e = true) :
-    parseText (renderText evs eols tail) = evs.map (fun e => (effType e.name, joinNl e.data)) :=
-  parseText_render evs eols tail h
+    parseText (renderText evs eols tail) =
+      (evs.filter (fun e => !e.data.isEmpty)).map (fun e => (effType e.name, joinNl e.data)) := by
+  rw [parseText_render evs eols tail h]
+  clear h
+  induction evs with
+  | nil => rfl
+  | cons e es ih =>
+    cases hd : e.data <;> simp [evOuts, evOut, hd, ih]
 
-/-- non-vacuity: two events, one without event field and without spaces, CRLF on some lines,
+/-- non-vacuity: a data-less `ping` keep-alive, then an event without event field and without
+    spaces (it must NOT inherit "ping"), a comment-only event, a typed event; CRLF on some lines,
     a comment and an `id:` line, multi-line data, end of file inside the last line -/
 example :
+    let e0 : Event := { name := some "ping".toList, data := [], nameChoice := dflt, dataChoices := [] }
     let e1 : Event := { name := none, data := ["{\"a\":".toList, "1}".toList],
                         nameChoice := dflt, dataChoices := [⟨false, [.comment " hi".toList]⟩] }
-    let e2 : Event := { name := some "message".toList, data := ["{}".toList],
+    let e2 : Event := { name := none, data := [], nameChoice := dflt, dataChoices := [],
+                        after := [.comment "keep".toList] }
+    let e3 : Event := { name := some "message".toList, data := ["{}".toList],
                         nameChoice := ⟨false, [.idField true "7".toList]⟩, dataChoices := [] }
-    (Conformant e1 && Conformant e2) = true ∧
-    renderText [e1, e2] [true, false, true] .noEol
-      = ": hi\r\ndata:{\"a\":\ndata: 1}\r\n\nid: 7\nevent:message\ndata: {}".toList ∧
-    parseText (renderText [e1, e2] [true, false, true] .noEol)
+    (Conformant e0 && Conformant e1 && Conformant e2 && Conformant e3) = true ∧
+    renderText [e0, e1, e2, e3] [false, false, true, false, true] .noEol
+      = "event: ping\n\n: hi\r\ndata:{\"a\":\ndata: 1}\r\n\n:keep\n\nid: 7\nevent:message\ndata: {}".toList ∧
+    parseText (renderText [e0, e1, e2, e3] [false, false, true, false, true] .noEol)
       = [("message".toList, "{\"a\":\n1}".toList), ("message".toList, "{}".toList)] := by
   decide
 
@@ -78,26 +90,32 @@ theorem c11_json_body_messages (dec : Dec P) (id : Option Id) (r : Resp)
     have := c11_success_passthrough dec id r hs (by simpa [hcont] using hne) (by simp [hc])
     simpa [hcont] using this
 
-/-- SSE body: in ANY conformant encoding of ANY number of events, every JSON-RPC message the
-events carry is delivered, in order. -/
+/-- SSE body: in ANY conformant encoding of ANY number of events — message events, events of
+other types, data-less keep-alives, in any order — every JSON-RPC message the events carry is
+delivered, in order (`g e` = the messages event `e` carries; data-less events carry none and do
+not disturb their neighbours). -/
 theorem c11_sse_body_messages (dec : Dec P) (id : Option Id) (r : Resp)
-    (evs : List Event) (eols : List Bool) (tail : Tail) (f : Event → Msg P)
+    (evs : List Event) (eols : List Bool) (tail : Tail) (g : Event → List (Msg P))
     (hs : r.status < 400) (hc : r.ctype = .sse)
     (hconf : ∀ e ∈ evs, Conformant e = true)
-    (hmsg : ∀ e ∈ evs, sseEventMsgs dec (effType e.name, joinNl e.data) = [f e])
-    (hne : evs ≠ [])
+    (hmsg : ∀ e ∈ evs, e.data ≠ [] → sseEventMsgs dec (effType e.name, joinNl e.data) = g e)
+    (hnone : ∀ e ∈ evs, e.data = [] → g e = [])
+    (hne : evs.flatMap g ≠ [])
     (hbody : r.body.text = renderText evs eols tail) :
-    outcome dec id (.resp r) = evs.map (fun e => .pass (f e)) := by
-  have hcont : contained dec r = evs.map f := by
+    outcome dec id (.resp r) = (evs.flatMap g).map .pass := by
+  have hcont : contained dec r = evs.flatMap g := by
     simp only [contained, hc, hbody, sseMsgs_render dec evs eols tail hconf]
     clear hbody hconf hne
     induction evs with
     | nil => rfl
     | cons e es ih =>
-      simp only [List.flatMap_cons, List.map_cons, hmsg e (by simp)]
-      rw [ih (fun x hx => hmsg x (by simp [hx]))]; rfl
+      simp only [List.flatMap_cons]
+      rw [ih (fun x hx => hmsg x (by simp [hx])) (fun x hx => hnone x (by simp [hx]))]
+      by_cases hd : e.data = []
+      · simp [hd, hnone e (by simp) hd]
+      · simp [hd, hmsg e (by simp) hd]
   have := c11_success_passthrough dec id r hs (by simpa [hcont] using hne) (by simp [hc])
-  simpa [hcont, List.map_map, Function.comp_def] using this
+  simpa [hcont] using this
 
 /-- Notification POST: nothing the transport synthesises carries an id, whatever the answer;
 and when the answer is a failure nothing at all carrying an id is delivered. -/
@@ -166,6 +184,8 @@ example :
     outcome toyDec (some (.int 1)) (resp 200 .json none "{R}") = [.pass ⟨.result, some (.int 1), 10⟩] ∧
     outcome toyDec (some (.int 1)) (resp 200 .json none "B")
       = [.pass ⟨.notification, none, 20⟩, .pass ⟨.result, some (.int 1), 10⟩] ∧
+    outcome toyDec (some (.int 1)) (resp 200 .sse none "event: ping\n\ndata: {R}\n\n")
+      = [.pass ⟨.result, some (.int 1), 10⟩] ∧
     outcome toyDec (some (.int 1)) (resp 200 .sse none "data:{N}\r\n\r\nevent: message\ndata: {R}")
       = [.pass ⟨.notification, none, 20⟩, .pass ⟨.result, some (.int 1), 10⟩] ∧
     -- notification POST: nothing with an id on failure
